@@ -28,7 +28,9 @@ def check(repo: Repo, rep, tier):
     from .C03 import io_encoding
 
     io_encoding(repo, rep)
-    from .C03 import char_units, range_prov
+    from .C03 import char_units, range_prov, line_model
+
+    line_model(repo, rep)
 
     # the literal has to land on the characters of the old one: positions in character units
     range_prov(repo, rep)
